@@ -82,8 +82,10 @@ Polygons Staircase(int steps, double dx, double ox, double oy) {
   return {p};
 }
 
+json gFails = json::array();
 std::vector<std::string> RunCase(const json& c) {
   std::vector<std::string> h;
+  gFails = json::array();
   auto addMesh = [&](const char* tag, const Manifold& m) {
     MeshGL64 g = m.GetMeshGL64();
     h.push_back(std::string(tag) + ":" + Hex(HashMeshModIDs(g)) + ":" + std::to_string(g.NumTri()) + ":" + ErrName(m.Status()));
@@ -127,6 +129,19 @@ std::vector<std::string> RunCase(const json& c) {
     for (auto v : second) g.triVerts.push_back(v);
     Manifold m(g);
     addMesh("bowtie", m);
+  } else if (k == "roundtripbig") {
+    // C08 above the 2^18-vertex ingest path: properties + merge vectors on a big mesh
+    Manifold m = Manifold::Cube(vec3(1.0)).Refine(c["n"].get<int>()).CalculateNormals(0);
+    MeshGL64 g = m.GetMeshGL64();
+    Manifold back(g);
+    if (back.Status() != Manifold::Error::NoError)
+      gFails.push_back({{"kind", "roundtrip"}, {"step", 0}, {"detail", {{"why", std::string("re-import status ") + ErrName(back.Status())}, {"verts", (long)g.NumVert()}, {"merges", g.mergeFromVert.size()}}}});
+    else {
+      MeshGL64 g2 = back.GetMeshGL64();
+      if (g2.NumTri() != g.NumTri() || std::fabs(back.Volume() - m.Volume()) > 1e-9 || back.NumVert() != m.NumVert())
+        gFails.push_back({{"kind", "roundtrip"}, {"step", 0}, {"detail", {{"why", "big mesh changed in the round trip"}, {"nt", (long)g.NumTri()}, {"nt2", (long)g2.NumTri()}}}});
+    }
+    h.push_back("roundtripbig:" + std::to_string(g.NumVert()) + ":" + std::to_string(g.mergeFromVert.size()));
   } else if (k == "sphere") {
     const int seg = c["seg"];
     Manifold a = Manifold::Sphere(1.0, seg), b = Manifold::Sphere(1.0, seg).Translate({0.6, 0.2, 0.1});
@@ -191,7 +206,7 @@ int DetMain(int argc, char** argv) {
   for (long i = from; i < (long)cases.size(); i++) {
     out.line({{"begin", i}});
     auto h = RunCase(cases[i]);
-    out.line({{"i", i}, {"fail", json::array()}, {"nontrivial", 1}, {"h", h}});
+    out.line({{"i", i}, {"fail", gFails}, {"nontrivial", 1}, {"h", h}});
   }
   out.line({{"done", true}, {"n", (long)cases.size() - from}});
   return 0;
